@@ -127,7 +127,13 @@ def NF(r: "ProvRecord") -> "bool":
     """C05: formal attributes single-valued (except prov:entity of a membership: the PROV-JSON
     compatibility path the property does not claim), reference-valued ones hold qualified names,
     time-valued ones datetimes, every other value is normalised"""
-    return AttrsWF(r) and FormalSingle(r) and AllStoredOK(r)
+    return AttrsWF(r) and FormalSingle(r) and AllStoredOK(r) and KeysOK(r)
+
+
+@spec
+def KeysOK(r: "ProvRecord") -> "bool":
+    # the attribute names stored as keys are well-formed qualified names
+    return forall(lambda u: implies(qm_has(r._attributes, u), QNameOK(qm_key(r._attributes, u))), "str")
 
 
 @spec
@@ -159,19 +165,113 @@ def StoredOK(u: "str", v: "Val") -> "bool":
 
 
 @spec
-def PairOK(name: "Val", value: "Val") -> "bool":
+def RawPairOK(name: "Val", value: "Val") -> "bool":
     """what the property's inputs look like: attribute names are qualified names or text, values are
     scalars, library values or records (no containers)"""
-    return ((is_qn(name) and QNameOK(as_qn(name))) or (is_str(name) and not prefixof(":", as_str(name)))) and not is_other(value) \
+    return ((is_qn(name) and QNameOK(as_qn(name))) or is_str(name)) and not is_other(value) \
         and implies(is_qn(value), QNameOK(as_qn(value))) \
-        and implies(is_ref(value), isinst(value, "ProvRecord") and IdOK(as_ref(value, "ProvRecord"))) \
-        and implies(is_ident(value), contains(as_ident(value).uri, ":") and not prefixof(":", as_ident(value).uri)) \
-        and implies(is_str(value), not prefixof(":", as_str(value)))
+        and implies(is_ident(value), contains(as_ident(value).uri, ":")) \
+        and implies(is_ref(value), isinst(value, "ProvRecord") and IdOK(as_ref(value, "ProvRecord")))
+
+
+@spec
+def PairOK(name: "Val", value: "Val") -> "bool":
+    # an input pair, or a pair taken from a record in normal form (NormalPair is opaque outside add_attributes)
+    return NormalPair(pair(name, value)) or RawPairOK(name, value)
 
 
 @spec
 def ArgsOK(attributes: "Seq[Tup[Val,Val]]") -> "bool":
-    return forall(lambda p: implies(seq_has(attributes, p), PairOK(p[0], p[1])), "Tup[Val,Val]")
+    return forall_in(attributes, lambda p: PairOK(p[0], p[1]))
+
+
+@opaque_spec
+def NormalPair(p: "Tup[Val,Val]") -> "bool":
+    """a (name, value) pair as a record in normal form stores it: a QualifiedName and either nothing or a
+    value of the right kind for that name.  Opaque: only the units that need its definition reveal it."""
+    if not (is_qn(p[0]) and QNameOK(as_qn(p[0]))):
+        return False
+    if is_none(p[1]):
+        return True
+    if uri_in(as_qn(p[0]).uri, PROV_ATTRIBUTE_QNAMES):
+        return is_qn(p[1]) and QNameOK(as_qn(p[1]))
+    if uri_in(as_qn(p[0]).uri, PROV_ATTRIBUTE_LITERALS):
+        return is_dt(p[1])
+    return ValueNF(p[1]) and implies(is_qn(p[1]), QNameOK(as_qn(p[1])))
+
+
+@spec
+def PairU(p: "Tup[Val,Val]") -> "str":
+    return as_qn(p[0]).uri
+
+
+@spec
+def PairC(p: "Tup[Val,Val]") -> "Val":
+    return ck(p[1])
+
+
+@spec
+def AllNormal(attributes: "Seq[Tup[Val,Val]]") -> "bool":
+    return forall_in(attributes, lambda p: NormalPair(p))
+
+
+@spec
+def GivenAreStored(r: "ProvRecord", attributes: "Seq[Tup[Val,Val]]", upto: "int") -> "bool":
+    """every normal pair among the first `upto` ones whose value is not None is now stored (under the name's
+    URI, by the value's key)"""
+    return forall(lambda j: implies(0 <= j and j < upto and NormalPair(seq_nth(attributes, j)) and not is_none(seq_nth(attributes, j)[1]),
+                                    vs_has(qm_get(r._attributes, PairU(seq_nth(attributes, j))), PairC(seq_nth(attributes, j)))), "int")
+
+
+@spec
+def OnlyGivenAreStored(r: "ProvRecord", attributes: "Seq[Tup[Val,Val]]", upto: "int") -> "bool":
+    """nothing else was stored: every stored pair was there before or comes from one of the first `upto` pairs"""
+    return forall(lambda u, c: implies(vs_has(qm_get(r._attributes, u), c),
+                                       old(vs_has(qm_get(r._attributes, u), c))
+                                       or exists(lambda j: 0 <= j and j < upto and PairU(seq_nth(attributes, j)) == u
+                                                 and same(PairC(seq_nth(attributes, j)), c), "int")),
+                  "str", "Val")
+
+
+@spec
+def GivenAreStoredM(r: "ProvRecord", attributes: "Seq[Tup[Val,Val]]") -> "bool":
+    """membership form: every normal pair of the list whose value is not None is stored"""
+    return forall(lambda p: implies(seq_has(attributes, p) and NormalPair(p) and not is_none(p[1]),
+                                    vs_has(qm_get(r._attributes, PairU(p)), PairC(p))), "Tup[Val,Val]")
+
+
+@spec
+def OnlyGivenM(r: "ProvRecord", attributes: "Seq[Tup[Val,Val]]") -> "bool":
+    """membership form: every stored pair was there before or is one of the list's pairs"""
+    return forall(lambda u, c: implies(vs_has(qm_get(r._attributes, u), c),
+                                       old(vs_has(qm_get(r._attributes, u), c))
+                                       or exists(lambda p: seq_has(attributes, p) and PairU(p) == u and same(PairC(p), c), "Tup[Val,Val]")),
+                  "str", "Val")
+
+
+@spec
+def InOpt(L: "Opt[Seq[Tup[Val,Val]]]", p: "Tup[Val,Val]") -> "bool":
+    return L is not None and seq_has(the(L), p)
+
+
+@spec
+def AllNormalOpt(L: "Opt[Seq[Tup[Val,Val]]]") -> "bool":
+    return L is None or AllNormal(the(L))
+
+
+@spec
+def StoredFrom(r: "ProvRecord", L1: "Opt[Seq[Tup[Val,Val]]]", L2: "Opt[Seq[Tup[Val,Val]]]") -> "bool":
+    """every normal pair of the given lists whose value is not None is stored in r"""
+    return forall(lambda p: implies((InOpt(L1, p) or InOpt(L2, p)) and NormalPair(p) and not is_none(p[1]),
+                                    vs_has(qm_get(r._attributes, PairU(p)), PairC(p))), "Tup[Val,Val]")
+
+
+@spec
+def OnlyFrom(r: "ProvRecord", L1: "Opt[Seq[Tup[Val,Val]]]", L2: "Opt[Seq[Tup[Val,Val]]]") -> "bool":
+    """r stores nothing but pairs of the given lists"""
+    return forall(lambda u, c: implies(vs_has(qm_get(r._attributes, u), c),
+                                       exists(lambda p: (InOpt(L1, p) or InOpt(L2, p)) and PairU(p) == u and same(PairC(p), c), "Tup[Val,Val]")),
+                  "str", "Val")
 
 
 @spec
@@ -199,17 +299,29 @@ def add_attributes(self: "ProvRecord", attributes: "Seq[Tup[Val,Val]]") -> "none
     requires("args", ArgsOK(attributes))
     uses("prov.model.NamespaceManager.valid_qualified_name", "qn-uri-kept", "no-rebind", "inv", "result-namespace-ok",
          "result-prefix-well-formed", "none-for-other-kinds", "none-for-none", "parent-unchanged")
-    uses("prov.model.ProvRecord._auto_literal_conversion", "normalised", "qualified-name-ok", "namespaces-inv")
+    uses("prov.model.ProvRecord._auto_literal_conversion", "normalised", "qualified-name-ok", "namespaces-inv",
+         "text-unchanged", "qualified-name-same-uri", "typed-literal-becomes-native", "tagged-literal-unchanged", "native-unchanged")
     modifies(self, "_attributes")
     modifies(self._bundle._namespaces, "<dict>", "_namespaces", "_uri_map", "_rename_map", "_prefix_renamed_map", "_default")
+    reveal("NormalPair")
+    assert_at("self._attributes[attr].add(value)", "stores-the-given-pair",
+              implies(NormalPair(pair(attr_name, original_value)),
+                      attr.uri == as_qn(attr_name).uri and same(ck(value), ck(original_value))))
+    assert_at("self._attributes[attr].add(value)", "value-storable", StoredOK(attr.uri, value))
+    assert_at("continue", "same-value-already-stored",
+              implies(NormalPair(pair(attr_name, original_value)) and not is_none(original_value),
+                      vs_has(qm_get(self._attributes, as_qn(attr_name).uri), ck(original_value))))
     invariant("L1", "attrs-wf", AttrsWF(self))
     invariant("L1", "formal-single", FormalSingle(self))
     invariant("L1", "stored-ok", AllStoredOK(self))
+    invariant("L1", "keys-ok", KeysOK(self))
     invariant("L1", "namespaces-inv", NSM_Inv(self._bundle._namespaces))
     invariant("L1", "namespaces-no-rebind", NoRebind(self._bundle._namespaces))
     invariant("L1", "nothing-lost", NothingLost(self))
     invariant("L1", "others-untouched", OthersUntouched(self))
     invariant("L1", "bundle-kept", same(self._bundle, old(self._bundle)) and same(self._identifier, old(self._identifier)))
+    invariant("L1", "given-are-stored", GivenAreStored(self, attributes, _i))
+    invariant("L1", "only-given-are-stored", implies(AllNormal(attributes), OnlyGivenAreStored(self, attributes, _i)))
     raises(ProvException, ensures=NF(self) and NothingLost(self) and OthersUntouched(self))
     raises(ValueError, ensures=NF(self) and NothingLost(self) and OthersUntouched(self))
     raises(TypeError, ensures=NF(self) and NothingLost(self) and OthersUntouched(self))
@@ -217,6 +329,12 @@ def add_attributes(self: "ProvRecord", attributes: "Seq[Tup[Val,Val]]") -> "none
     ensures("nothing-lost", NothingLost(self))
     ensures("others-untouched", OthersUntouched(self))
     ensures("namespaces", NSM_Inv(self._bundle._namespaces) and NoRebind(self._bundle._namespaces))
+    # content: what a pair list taken from a record in normal form puts into the record (C08, C09, C12)
+    ensures("given-are-stored", GivenAreStored(self, attributes, seq_len(attributes)))
+    ensures("only-given-are-stored", implies(AllNormal(attributes), OnlyGivenAreStored(self, attributes, seq_len(attributes))))
+    axiom("a member of a sequence sits at some index", seq_member_index_lemma(attributes))
+    ensures("given-are-stored-m", GivenAreStoredM(self, attributes))
+    ensures("only-given-m", implies(AllNormal(attributes), OnlyGivenM(self, attributes)))
 
 
 # ------------------------------------------------------------------------------ the other writers of _attributes
@@ -227,7 +345,13 @@ def add_asserted_type(self: "ProvRecord", type_identifier: "QN") -> "none":
     requires("nf", NF(self))
     requires("type-ok", QNameOK(type_identifier))
     modifies(self, "_attributes")
-    ensures("nf", NF(self))
+    ensures("attrs-wf", AttrsWF(self))
+    ensures("formal-single", FormalSingle(self))
+    ensures("stored-ok", AllStoredOK(self))
+    ensures("keys-ok", KeysOK(self))
+    ensures("formal-single-for-all", forall(lambda r: implies(old(FormalSingle(r)), FormalSingle(r)), "ProvRecord"))
+    ensures("stored-ok-for-all", forall(lambda r: implies(old(AllStoredOK(r)), AllStoredOK(r)), "ProvRecord"))
+    ensures("keys-ok-for-all", forall(lambda r: implies(old(KeysOK(r)), KeysOK(r)), "ProvRecord"))
     ensures("asserted", vs_has(qm_get(self._attributes, PROV_TYPE.uri), ck(type_identifier)))
     ensures("nothing-lost", NothingLost(self))
     ensures("others-untouched", OthersUntouched(self))
@@ -247,6 +371,7 @@ def set_time(self: "ProvActivity", startTime: "Val" = None, endTime: "Val" = Non
     ensures("attrs-wf", AttrsWF(self))
     ensures("formal-single", FormalSingle(self))
     ensures("stored-ok", AllStoredOK(self))
+    ensures("keys-ok", KeysOK(self))
     ensures("start-set", implies(not is_none(startTime), vs_n(qm_get(self._attributes, PROV_ATTR_STARTTIME.uri)) == 1
                                  and is_dt(vs_first(qm_get(self._attributes, PROV_ATTR_STARTTIME.uri)))))
     ensures("end-set", implies(not is_none(endTime), vs_n(qm_get(self._attributes, PROV_ATTR_ENDTIME.uri)) == 1
@@ -270,6 +395,8 @@ def ProvRecord_init(self: "ProvRecord", bundle: "ProvBundle", identifier: "Opt[Q
     ensures("nf", NF(self))
     ensures("others-untouched", OthersUntouched(self))
     ensures("namespaces", NSM_Inv(bundle._namespaces) and NoRebind(bundle._namespaces))
+    ensures("given-are-stored", StoredFrom(self, attributes, None))
+    ensures("only-given-are-stored", implies(AllNormalOpt(attributes), OnlyFrom(self, attributes, None)))
 
 
 @contract("prov.model.ProvElement.__init__", props=["C05", "C09", "C12"])
@@ -288,3 +415,5 @@ def ProvElement_init(self: "ProvElement", bundle: "ProvBundle", identifier: "Opt
     ensures("nf", NF(self))
     ensures("others-untouched", OthersUntouched(self))
     ensures("namespaces", NSM_Inv(bundle._namespaces) and NoRebind(bundle._namespaces))
+    ensures("given-are-stored", StoredFrom(self, attributes, None))
+    ensures("only-given-are-stored", implies(AllNormalOpt(attributes), OnlyFrom(self, attributes, None)))
